@@ -56,6 +56,10 @@ func readFrameOfType(fType byte, reader *bufio.Reader, isTCP bool) (frame, error
 			return nil, err
 		}
 		reader.ReadByte() // Discard ';'. (TODO: Use reader.Discard(1) when we drop support for Go <= 1.4).
+		if fType == '*' {
+			// A prefix can not announce another prefix (a stream of '*' would recurse without bound).
+			return nil, fmt.Errorf("Unexpected frame type %c", fType)
+		}
 		return readFrameOfType(fType, reader, isTCP)
 	case 'c':
 		data, err = reader.ReadBytes('\r')
